@@ -310,8 +310,33 @@ def gen_failing(rng, tier, base):
             "meta": {}}
 
 
+WEIRD = ["", "", "", " x", "[1]", "%d", ".v2", "_50%_rest", "ü", "a*b"]
+
+
+def gen_cli_twice(rng, tier, base):
+    """The same subcommand twice in one process, on different inputs (the drivers' own state
+    must not carry over from the first run to the second)."""
+    which = rng.choice(["analysis", "analysis", "transform", "grammar", "transitions"])
+    gen = {"analysis": gen_analysis, "transform": gen_convert, "grammar": gen_grammar,
+           "transitions": gen_transitions}[which]
+    a = gen(rng, tier, base + "/a", True)
+    b = gen(rng, tier, base + "/b", True)
+    if which == "analysis":
+        b["ops"][0][1][2] = a["ops"][0][1][2]            # the same task both times
+    files = dict(a["files"])
+    files.update(b["files"])
+    return {"kind": "cli_twice_" + which, "ops": a["ops"] + b["ops"], "files": files,
+            "on_error": "continue", "meta": {"src_fmt": a["meta"].get("src_fmt")},
+            "dirs": [base + "/a", base + "/b"]}
+
+
 def gen_session(rng, tier, idx):
-    base = "/sim/w/s%d" % idx
+    base = "/sim/w/s%d%s" % (idx, rng.choice(WEIRD))
+    r = rng.random()
+    if r < 0.08:
+        s = gen_cli_twice(rng, tier, base)
+        s["base"] = base
+        return s
     r = rng.random()
     if r < 0.28:
         s = gen_convert(rng, tier, base, cli=rng.random() < 0.4)
